@@ -1,16 +1,37 @@
-"""Comprehensions and generator arguments (limited forms)."""
+"""Comprehensions and generator arguments.
+
+Over a concrete sequence the comprehension is expanded.  Over a symbolic sequence S of length n:
+  * one generic element S[i0] (0 <= i0 < n, fresh i0) is executed for its obligations
+    (safety of the conditions and of the element expression); the case n == 0 is a separate path;
+  * the result R is a list with  len(R) <= n  (== n without a filter).  When the element
+    expression is the loop variable itself (possibly through typing.cast) R keeps the element
+    spec of S and, for a filter `cond`,  forall j < len(R): cond(R[j])  and
+    (len(R) >= 1) == exists i < n: cond(S[i])  are added (evaluated with the contract-language
+    evaluator, so only side-effect free conditions qualify);
+  * otherwise, when the element expression evaluates in specification mode to a scalar, R[i] is
+    defined pointwise by a quantified axiom (no filter only).
+"""
 import ast
 import z3
-from .sym import VInt, VBool, VStr, VTuple, VList, VOpaque, Unsupported, sand, sor
-from .interp import ListObj, _src
+from . import sym, codec
+from .sym import VInt, VBool, VStr, VTuple, VList, VOpaque, VDyn, Unsupported, sand, sor
+from .interp import ListObj, _src, _PathEnd
+
+
+def _is_identity_elt(node, gen):
+    e = node.elt
+    if isinstance(e, ast.Call) and isinstance(e.func, ast.Name) and e.func.id == "cast" \
+            and len(e.args) == 2:
+        e = e.args[1]
+    return isinstance(e, ast.Name) and isinstance(gen.target, ast.Name) and e.id == gen.target.id
 
 
 def comprehension(it, node):
-    """[elt for target in iter if cond] over a concrete sequence is expanded; over a symbolic
-    sequence the result is a list of unknown contents whose length is bounded by the source."""
     if len(node.generators) != 1:
         raise Unsupported("nested comprehension")
     gen = node.generators[0]
+    if gen.is_async:
+        raise Unsupported("async comprehension")
     src = it.ev(gen.iter)
     seq = it.world.as_sequence(it, src, gen.iter)
     saved = dict(it.st.env)
@@ -27,19 +48,115 @@ def comprehension(it, node):
                 if ok:
                     out.append(it.ev(node.elt))
             return it.new_list(out)
-        # symbolic: evaluate one generic element for its obligations (safety of elt/conds)
-        i = z3.Int(it.namer.fresh("_c"))
-        it_saved_pc = None
+        if it.st.spec:
+            raise Unsupported("comprehension over a symbolic sequence inside a specification")
+        n = seq.length
+        src_list = it.st.lists.get(src.oid) if isinstance(src, VList) else None
+        # ---- obligations on one generic element
+        elt_val = None
+        empty = it.choose(2, "comprehension source empty?") == 1
+        if empty:
+            it.assume(n == 0)
+            if not it.feasible():
+                raise _PathEnd()
+            return it.new_list([])
+        else:
+            i0 = z3.Int(it.namer.fresh("_c"))
+            it.assume(z3.And(0 <= i0, i0 < n))
+            if not it.feasible():
+                raise _PathEnd()
+            it.assign(gen.target, seq.item(i0), node)
+            passed = True
+            for cond in gen.ifs:
+                if not it.decide(it.truth(it.ev(cond))):
+                    passed = False
+                    break
+            if passed:
+                elt_val = it.ev(node.elt)
+        # ---- the result list
         oid = it.fresh_oid()
-        n = z3.Int(it.namer.fresh("complen"))
-        it.assume(z3.And(n >= 0, n <= seq.length))
+        m = z3.Int(it.namer.fresh("complen"))
+        it.assume(z3.And(m >= 0, m <= n))
         if not gen.ifs:
-            it.assume(n == seq.length)
-        it.world.comp_generic(it, node, gen, seq, i)
-        it.st.lists[oid] = ListObj(n, None, "opaque")
+            it.assume(m == n)
+        R = ListObj(m, None, None, None)
+        it.st.lists[oid] = R
+        if _is_identity_elt(node, gen) and src_list is not None and src_list.spec is not None:
+            R.spec = src_list.spec
+            if not gen.ifs and src_list.arrays is not None:
+                R.arrays = list(src_list.arrays)
+            else:
+                R.arrays = codec.fresh_arrays(it, R.spec, "comp")
+                if gen.ifs:
+                    _filter_facts(it, node, gen, seq, R, m, n)
+        elif not gen.ifs:
+            _pointwise(it, node, gen, seq, R, m, elt_val)
         return VList(oid)
     finally:
         for k in list(it.st.env):
             if k not in saved:
                 del it.st.env[k]
         it.st.env.update(saved)
+
+
+def _spec_cond(it, gen, item):
+    """conjunction of the filter conditions for `item`, evaluated side-effect free."""
+    st = it.st
+    saved_env, saved_spec = st.env, st.spec
+    st.env = dict(st.env)
+    st.spec = True
+    try:
+        it.assign(gen.target, item, gen.target)
+        return sand(*[it.truth(it.ev(c)) for c in gen.ifs])
+    finally:
+        st.env, st.spec = saved_env, saved_spec
+
+
+def _filter_facts(it, node, gen, seq, R, m, n):
+    try:
+        j = z3.Int(it.namer.fresh("j"))
+        st = it.st
+        saved = st.spec
+        st.spec = True
+        try:
+            rj, _ = codec.decode(it, R.spec, [z3.Select(a, j) for a in R.arrays], assume=False)
+            sj = seq.item(j)
+        finally:
+            st.spec = saved
+        cr = _spec_cond(it, gen, rj)
+        cs = _spec_cond(it, gen, sj)
+        it.S.add(z3.ForAll([j], z3.Implies(z3.And(0 <= j, j < m), cr)))
+        it.S.add((m >= 1) == z3.Exists([j], z3.And(0 <= j, j < n, cs)))
+        # an explicit witness keeps the solver from needing to instantiate the existential
+        k = z3.Int(it.namer.fresh("wit"))
+        it.S.add(z3.Implies(m >= 1, z3.And(0 <= k, k < n, z3.substitute(cs, (j, k)))))
+    except Unsupported:
+        pass
+
+
+def _pointwise(it, node, gen, seq, R, m, elt_val):
+    spec = codec.infer_spec(elt_val) if elt_val is not None else None
+    if spec is None:
+        return
+    if spec == "str" or isinstance(spec, tuple):
+        # kind known, contents not modelled
+        R.spec = spec
+        R.arrays = codec.fresh_arrays(it, spec, "comp")
+        return
+    try:
+        j = z3.Int(it.namer.fresh("j"))
+        st = it.st
+        saved_env, saved_spec = st.env, st.spec
+        st.env = dict(st.env)
+        st.spec = True
+        try:
+            it.assign(gen.target, seq.item(j), gen.target)
+            v = it.ev(node.elt)
+        finally:
+            st.env, st.spec = saved_env, saved_spec
+        terms = codec.encode(it, spec, v)
+        R.spec = spec
+        R.arrays = [z3.Lambda([j], t) for t in terms]
+    except Unsupported:
+        R.spec = None
+        R.arrays = None
